@@ -295,6 +295,7 @@ impl CaseKind for Case14 {
                 LayerSpec::Dense { .. } => "layer:dense".into(),
                 LayerSpec::Conv { .. } => "layer:conv".into(),
                 LayerSpec::Flatten => "layer:flatten".into(),
+                LayerSpec::Gate => "layer:user-defined-activation".into(),
             });
         }
         classes.sort();
@@ -380,6 +381,17 @@ pub fn run(ctx: &Ctx) -> i32 {
         let specs = vec![LayerSpec::Conv { count: 2, depth: 1, fr: f1, fc: f1, sr: 1, sc: 1, act }, LayerSpec::Conv { count: 1, depth: 2, fr: fr2, fc: fc2, sr: sr2, sc: sc2, act: Act::None }];
         let iters = (0..3).map(|k| Iter { batch: if k == 1 { batch } else { 2 - batch }, xseed: i * 10 + k, target_mode: (k % 2) as u8, extra_forward: false, probe_forward_after: false }).collect();
         Some(Case14 { specs, rows, cols, cost: CostKind::Mse, lr: [0.5, 0.125][(i % 2) as usize], pseed: i + 11, int_data: act == Act::None, iters, const_init: None })
+    }));
+    // a user-defined activation (Array::op on the input and an untracked constant) between built-in layers
+    st.merge(ctx.run_indexed("user-defined-activation-layers", 3 * 3 * 2, None, |i| {
+        let specs = match i % 3 {
+            0 => vec![LayerSpec::Dense { input: 2, output: 3, act: Act::None }, LayerSpec::Gate, LayerSpec::Dense { input: 3, output: 2, act: Act::None }],
+            1 => vec![LayerSpec::Dense { input: 3, output: 2, act: Act::Sigmoid }, LayerSpec::Gate],
+            _ => vec![LayerSpec::Conv { count: 2, depth: 1, fr: 2, fc: 2, sr: 1, sc: 1, act: Act::None }, LayerSpec::Gate, LayerSpec::Conv { count: 1, depth: 2, fr: 1, fc: 2, sr: 1, sc: 1, act: Act::None }],
+        };
+        let batch = [0usize, 1, 3][((i / 3) % 3) as usize];
+        let iters = (0..3).map(|k| Iter { batch: if k == 2 { 2 } else { batch }, xseed: i * 10 + k + 1, target_mode: (k % 2) as u8, extra_forward: false, probe_forward_after: false }).collect();
+        Some(Case14 { specs, rows: 3, cols: 4, cost: CostKind::Mse, lr: 0.25, pseed: i + 21, int_data: (i / 9) % 2 == 0, iters, const_init: None })
     }));
     // constant initialisation: parameters of equal shape in different layers are equal arrays
     st.merge(ctx.run_indexed("constant-initialisation", 4 * 3 * 2, None, |i| {
